@@ -4,8 +4,25 @@ import os, re, subprocess
 from common import sh
 
 
-def run_lane(ctx, configs, layer="L-trace lane", what="lane"):
-    """configs: list of (threads, ops, serial_only). Returns number of transitions explained."""
+def forced(ctx, harness, sig_ok_prefix, viol_signature, what):
+    """Run a forced-schedule reproducer (prints ORACLE lines, exit 1 on violation) and report."""
+    h = ctx.harness(harness)
+    try:
+        p = subprocess.run([h], stdout=subprocess.PIPE, stderr=subprocess.DEVNULL, text=True, timeout=120)
+        out = p.stdout.strip().splitlines()
+    except subprocess.TimeoutExpired:
+        out = ["ORACLE VIOL %s: the forced schedule hung" % what]
+    viol = [l for l in out if l.startswith("ORACLE VIOL")]
+    ctx.cov["layers"].setdefault("forced schedules", {})[harness] = out[:3]
+    if viol:
+        ctx.violation(viol[0][12:400], {"cmd": [h], "stdout": out[:4]}, signature=viol_signature)
+    return not viol
+
+
+def run_lane(ctx, configs, layer="L-trace lane", what="lane", order_property=False):
+    """configs: list of (threads, ops, serial_only). Returns number of transitions explained.
+    order_property: the calling property is about submission order (C02 / C04): synchronous fast-path overtakes classified
+    by the harness as instances of finding F15 are reported (as that finding); the other properties ignore them."""
     h = ctx.harness("tr_lane")
     drv = ctx.driver()
     procs = []
@@ -14,7 +31,7 @@ def run_lane(ctx, configs, layer="L-trace lane", what="lane"):
         path = os.path.join(ctx.outdir, "%s-trace-%d.txt" % (what, i))
         f = open(path, "w")
         procs.append((subprocess.Popen([h, str(seed), str(thr), str(ops), str(serial)], stdout=f, stderr=subprocess.DEVNULL), f, path, [h, str(seed), str(thr), str(ops), str(serial)]))
-    paths, items, events = [], 0, 0
+    paths, items, events, overtakes = [], 0, 0, 0
     for p, f, path, cmd in procs:
         try:
             rc = p.wait(timeout=300)
@@ -38,9 +55,15 @@ def run_lane(ctx, configs, layer="L-trace lane", what="lane"):
         elif ok:
             m = re.search(r"items=(\d+) events=(\d+)", ok[0])
             items += int(m.group(1)); events += int(m.group(2))
+            mo = re.search(r"sync_fastpath_overtakes=(\d+)", ok[0])
+            overtakes += int(mo.group(1)) if mo else 0
         else:
             ctx.broken("lane harness produced no verdict", " ".join(cmd))
         paths.append(path)
+    ctx.cov["layers"].setdefault(layer, {})["sync_fastpath_overtakes_F15"] = overtakes
+    if overtakes and order_property:
+        ctx.violation("%d synchronous fast-path submission(s) ran before an asynchronous item whose submission had already returned (each began while a first pusher had exchanged the tail but not yet woken the queue)" % overtakes,
+                      {"cmd": "tr_lane ...", "count": overtakes}, signature="lane:order:sync-fastpath-overtakes:storm")
     explained = 0
     if drv and paths:
         r = sh([drv, "lane"] + paths)
